@@ -323,6 +323,22 @@ func (e *c17Env) check(t fataler, doc any) (msg string, info map[string]bool) {
 				info["in-memory-spec"] = true
 				rs = append(rs, result{"Validate(spec)", cfg.s.Validate(&raw)})
 				rs = append(rs, result{"ValidateType(spec)", cfg.s.ValidateType(&raw)})
+				// the same object validated again after it was modified in place: the verdict follows the content
+				if want && !malformed && len(raw.Devices) > 0 {
+					saved := raw.Devices
+					raw.Devices = nil // encodes as "devices": null, which the schema (type array) refuses
+					err1, err2 := cfg.s.Validate(&raw), cfg.s.ValidateType(&raw)
+					raw.Devices = saved
+					if err1 == nil || err2 == nil {
+						msg = fmt.Sprintf("%s schema: a Spec object was found valid, then its devices were set to nil in place, and validating the same object again still says valid (Validate: %v, ValidateType: %v)", cfg.name, err1, err2)
+						return
+					}
+					if err := cfg.s.Validate(&raw); err != nil {
+						msg = fmt.Sprintf("%s schema: the Spec object restored to its valid content is refused: %v", cfg.name, err)
+						return
+					}
+					info["revalidated-after-modification"] = true
+				}
 			}
 			if !malformed {
 				for _, r := range rs {
